@@ -58,6 +58,23 @@ NATURAL_VALUE = ['amount + "x"', 'split(description, " ", 99.5)', 'description +
 NATURAL_VIEW = ['total > "x"', 'category + 1 > 2', 'sum(payments) / "2" > 1', 'nosuch > 1', 'stddev(5) > 1', 'by("nosuchfield")',
                 'months > "3"', '"fun" in total', 'tags + 1', 'sum(5) > 1', 'max(by("month")) > "1"', 'avg("x") > 1', 'cv > "0.3"',
                 'count(3) > 1', 'total > 100 and tags + 1', 'round(category) > 1', 'abs(merchant) > 1', 'period(5) > 1', 'min_val("a", 1) > 0']
+# the same expressions grouped by what the evaluation raises underneath: handlers that look at the exception object
+# (its type, message, args, __cause__) must cope with every one of them
+BY_CLASS = {
+    'TypeError': ['amount > "100"', 'len(amount) > 1', 'description + 1', 'abs(description) > 1', '"x" in amount', '-description > 1'],
+    'AttributeError': ['contains(5)', 'startswith(7)', 'normalized(3)', 'anyof(1, 2)'],
+    'StopIteration': ['next(r for r in orders if r.amount == -1).item == "x"', 'next(c for c in description if c == "#") == "#"',
+                      'next(r.item for r in orders if r.amount < 0) == "x"'],
+    'ValueError': ['max([r.amount for r in orders if r.amount < 0]) > 1', 'min([r.amount for r in orders if r.amount < 0]) > 1'],
+    'IndexError': ['[r for r in orders][5].item == "x"', 'orders[9].item == "x"'],
+    'KeyError': ['orders[0]["nosuch"] == 1'],
+    're.error': ['regex("(")', 'regex_replace(description, "(", "") == "x"', 'extract("(") == "x"'],
+    'arity': ['contains("A", "B", "C")', 'any(contains("UBER"), contains("LYFT"))', 'description.lower(1)', 'substring(description, 0, amount) == "x"',
+              'split(description, " ", "x") == "a"', 'exists(field.a, field.b)', 'len(1, 2) > 0'],
+    'unknown-name': ['nosuchvar > 1', 'field.nosuch == "x"', 'txn.nosuch == 1', 'nosuchfn(1)', 'orders[0].nosuch == 1'],
+    'bad-date': ['date >= "2025-13-45"', 'date == "yesterday"'],
+    'ZeroDivision-like': ['amount / "2" > 1', 'sum(amount) > 1', 'round(description) > 1'],
+}
 SITES_RULES = ['match', 'let', 'variable', 'field', 'tag', 'transform']
 SITES_LEGACY = ['legacy-pattern', 'legacy-tag']
 SITES_VIEWS = ['view-filter', 'view-variable']
@@ -106,6 +123,10 @@ def gen_case(rng, tier):
         r = m['rules'][k]
         good_value = rng.choice(['uppercase(description)', 'amount * 2', 'extract("r(\\\\d+)")'])
         bad = rng.choice(NATURAL_TXN) if site in ('match', 'variable') else rng.choice(NATURAL_VALUE + NATURAL_TXN[:6])
+        if rng.random() < 0.5:
+            bad = rng.choice(BY_CLASS[rng.choice(sorted(BY_CLASS))])
+            if site not in ('match', 'variable', 'let'):
+                bad = bad.split(' == ')[0].split(' > ')[0] if rng.random() < 0.5 else bad
         if rng.random() < 0.35:
             bad = rng.choice(BINDING_TXN)
         if site == 'match':
